@@ -28,6 +28,41 @@ def frame_obligations(repo):
     return out
 
 
+def modeflow_obligations(repo, param='mode'):
+    """the parsing mode / tolerance / skip list reaches every nested reader (pyvc/modeflow.py); sites off the
+    allow-list are failed obligations"""
+    import json
+    import os
+    from pyvc.modeflow import scan, key
+    allow = json.load(open(os.path.join(os.path.dirname(os.path.abspath(__file__)), 'contracts', 'modeflow_allow.json')))['allowed']
+    prefix = {'mode': 'MF', 'tolerance': 'TF', 'skip_envs': 'SF'}[param]
+    allow = {k: v for k, v in allow.items() if k.startswith(prefix)}
+    out = []
+    sites = scan(repo, param=param)
+    for s in sites:
+        ok = s[4] or key(s) in allow
+        out.append(('modeflow#%s' % key(s), ok, '%s line %d%s' % (key(s), s[5], '' if ok else
+                    ' -- the mode does not reach the callee / is reassigned at a site not on the allow-list')))
+    for k in allow:
+        if not any(key(s) == k for s in sites):
+            out.append(('modeflow#allow-list-entry-still-present[%s]' % k, True, 'site no longer present'))
+    out.append(('modeflow#readers-scanned[%s]' % param, len(sites) >= 5, '%d call/assignment sites' % len(sites)))
+    if param != 'mode':
+        return out
+    # the dead store must stay dead: no use of `mode` after it in read_command
+    import ast
+    fn = [n for n in repo.trees['reader'].body if isinstance(n, ast.FunctionDef) and n.name == 'read_command']
+    if fn:
+        stores = [n for n in ast.walk(fn[0]) if isinstance(n, ast.Assign) and any(
+            isinstance(t, ast.Name) and t.id == 'mode' for t in n.targets) and ast.unparse(n.value) == 'MODE_NON_MATH']
+        for st_ in stores:
+            later = [n for n in ast.walk(fn[0]) if isinstance(n, ast.Name) and n.id == 'mode' and
+                     isinstance(n.ctx, ast.Load) and n.lineno > st_.lineno]
+            out.append(('modeflow#store-after-arguments-is-dead[L%d]' % st_.lineno, not later,
+                        '%d later uses of mode' % len(later)))
+    return out
+
+
 def by_prefix(*prefixes):
     return lambda c: any(c.qual.startswith(p) or c.qual == p for p in prefixes)
 
@@ -118,13 +153,14 @@ PROPS = {
     'C07': dict(
         select=lambda c: c.qual.split('.')[0] in ('reader',),
         level='other',
-        bounded=['parse.py'],
+        bounded=['parse.py'], extra=lambda repo: modeflow_obligations(repo, 'tolerance'),
         assumptions=['clause 1 (strict success implies identical tolerant result) and clause 2 are checked bounded only; the deductive '
                      'part is: TypeError is raised by read_arg only in strict mode, strict returns imply closed groups '
                      '(read_arg#strict-implies-closed), read_env consumes the closer only when the names match'],
         explanation='bounded product run strict/tolerant over the construct-level enumeration plus reader clauses'),
     'C16': dict(
-        select=lambda c: c.qual in ('data.TexCmd.__str__', 'data.TexEnv.__str__', 'data.TexArgs.__str__'),
+        select=lambda c: c.qual in ('data.TexCmd.__str__', 'data.TexEnv.__str__', 'data.TexArgs.__str__',
+                                    'category.categorize'),
         level='other',
         bounded=['parse.py'],
         assumptions=['the fixed-point property composes parse and serialise twice; only the supporting facts (serialisers print '
@@ -134,14 +170,18 @@ PROPS = {
     'C02': dict(
         select=lambda c: c.qual.split('.')[0] in ('reader',) or c.qual.startswith('tokens.tokenize_command_name') or
         c.qual in ('data.TexExpr.__init__', 'data.TexExpr.append'),
-        level='other', bounded=['tree.py'],
+        level='other', bounded=['tree.py'], extra=modeflow_obligations,
         lemmas=['M2 (DESIGN 9): the bracketing clauses determine the tree uniquely from the token stream (not mechanised)'],
         assumptions=['equality with the generating syntax tree quantifies over a grammar: bounded (generated documents, depth 3/4)',
                      'proved clauses: kind by opening token (read_arg#kind), text leaves are single tokens '
                      '(read_expr#text-leaf-is-the-token), \\item owns up to the next \\item/\\end/closing brace '
                      '(read_item#owns-up-to-next-item-or-end), name token (read_command#name-token), command names are maximal '
-                     'runs of letters and * (tokenize_command_name)'],
-        explanation='bracketing clauses on the readers for all inputs; tree equality on generated documents'),
+                     'runs of letters and * (tokenize_command_name)',
+                     'mode flow (definition bodies, math): a syntactic data-flow scan of reader.py (pyvc/modeflow.py) with the '
+                     'allow-list contracts/modeflow_allow.json, not a solver obligation; allow-listed restarts of the mode '
+                     '(\\item bodies, math regions) are not claimed inside definition bodies'],
+        explanation='bracketing clauses on the readers for all inputs; the parsing mode reaches every nested reader '
+                    '(mode-flow scan); tree equality on generated documents incl. \\newcommand-style definitions'),
     'C09': dict(
         select=lambda c: c.qual in ('tokens.tokenize_spacers', 'tokens.tokenize_symbols', 'reader.read_spacer', 'reader.read_arg',
                                     'reader.read_arg_optional', 'reader.read_arg_required', 'reader.read_args', 'reader.read_expr'),
@@ -162,7 +202,7 @@ PROPS = {
     'C11': dict(
         select=lambda c: c.qual in ('reader.read_skip_env', 'reader.read_expr', 'utils.Buffer.forward_until',
                                     'utils.Buffer.startswith', 'reader.read_tex'),
-        level='other', bounded=['constructs.py'],
+        level='other', bounded=['constructs.py'], extra=lambda repo: modeflow_obligations(repo, 'skip_envs'),
         assumptions=['coincidence of the first \\end{name} in the source with the first token boundary whose remaining text '
                      'starts with it is checked bounded', 'open findings D5 (fixed forward(5)) and D19 (\\item drops skip_envs)'],
         explanation='read_skip_env: the body is one raw text equal to the skipped tokens, no reader is invoked on it'),
